@@ -467,6 +467,14 @@ func genC20(g *Gen) {
 		e.setDec("prev", randAny(g.r))
 		g.emitDet(e)
 	})
+	// every format string of up to three symbols over {+ - # space 0 5 . e v}: all the ways a specifier can stop early
+	// (flags only, a width only, a trailing precision dot, a precision without a verb) and every short well-formed one
+	g.gridRun(nShortSpecs, 0.12, func(i int) {
+		sp := shortSpec(i)
+		e := Ev{"op": "Sprintf", "spec": ints(sp)}
+		e.setDec("x", []d128.Decimal{mk(true, big.NewInt(12375), -3), d128.NaN(), d128.Inf(-1), mk(false, big.NewInt(0), 7), randFinite(g.r)}[g.r.Intn(5)])
+		g.emitDet(e)
+	})
 	for !g.w.full() {
 		if g.r.Intn(40) == 0 {
 			g.setMode(g.r.Intn(6))
